@@ -54,6 +54,15 @@ def mask_guard_of_loop(loop, chan_name_hint=None):
     pat = loop["pat"]
     if pat.get("k") == "ptuple" and len(pat["elems"]) == 2 and pat["elems"][0].get("k") == "pident" and pat["elems"][1].get("k") == "pwild" and "enumerate" in meths:
         names = [pat["elems"][0]["name"], None]       # `for (chan, _) in ..`
+    if not meths and it.get("k") == "range" and not it.get("incl") and it.get("lo") is not None and it["lo"].get("k") == "lit" and str(it["lo"].get("v")) == "0" \
+            and pat.get("k") == "pident" and it.get("hi") is not None:
+        # `for chan in 0..N { if MASK[chan] { .. } }`: the index form of .enumerate().filter(|(chan, _)| MASK[*chan])
+        live = [s for s in loop["body"]["stmts"] if not _noop(s)]
+        if len(live) == 1 and _stmt_expr(live[0]) is not None and _stmt_expr(live[0]).get("k") == "if" and not _stmt_expr(live[0]).get("else"):
+            c0 = _stmt_expr(live[0])["c"]
+            if c0.get("k") == "index" and is_path(c0["i"], pat["name"]):
+                out.update(chan=pat["name"], elem=None, guard="filter-mask", mask_expr=c0["e"], body=_stmt_expr(live[0])["then"]["stmts"], over=it["hi"], index_range=True)
+        return out
     if "enumerate" not in meths or len(names) != 2:
         return out
     out["chan"], out["elem"] = names[0], names[1]
